@@ -26,8 +26,8 @@ MODELLED = ("modelled: the negotiation (what the registration response fixes fro
 ASSUMPTIONS = ["cryptojwt implements the JOSE algorithms both halves name"]
 
 DIMS = {
-    # the RP advertises code, id_token and code id_token (token-bearing response types are not in its _supports table)
-    "rt": ["code", "id_token", "code id_token"],
+    # all seven response types (the provider serves the token-bearing ones too, and the RP handles them when configured to ask for them)
+    "rt": ["code", "id_token", "code id_token", "code token", "id_token token", "code id_token token", "token"],
     "rm": [None, "query", "fragment", "form_post"],
     "am": ["client_secret_basic", "client_secret_post", "client_secret_jwt", "private_key_jwt"],
     "atf": ["opaque", "jwt"],
@@ -225,7 +225,9 @@ def impl(c):
         at = res.get("token")
         v = obs["views"]
         v["rp"] = {"client": cid, "sub": idt.get("sub") if idt else None, "nonce": idt.get("nonce") if idt else None,
-                   "scope": rec.get("scope"), "expires_in": rec.get("expires_in"), "idt_exp": idt.get("exp") if idt else None}
+                   "scope": rec.get("scope"), "expires_in": rec.get("expires_in"), "idt_exp": idt.get("exp") if idt else None,
+                   # when the RP itself believes the access token it goes on to use expires
+                   "expires_at": rec.get("__expires_at")}
         ui = res.get("userinfo")
         v["userinfo"] = {"sub": ui.get("sub") if hasattr(ui, "get") else None}
         # the provider's session
@@ -293,9 +295,13 @@ def compare(c, obs, outs):
     f = o.split("\t")
     a = obs["artefacts"]
     want = {"placement": f[0], "calls": f[1].split(","), "code": f[2] == "1", "id_token_front": f[3] == "1", "token_response": f[4] == "1",
-            "refresh_token": f[5] == "1", "id_token_encrypted": f[6] == "1", "userinfo": f[7] == "1"}
+            "refresh_token": f[5] == "1", "id_token_encrypted": f[6] == "1", "userinfo": f[7] == "1", "access_token_front": f[8] == "1",
+            "id_token": f[9] == "1", "access_token": f[10] == "1"}
+    if not a["id_token"]:
+        want["id_token_encrypted"] = False         # no ID token at all (code token / token): nothing to encrypt
     got = {"placement": obs["delivery"], "calls": obs["calls"], "code": a["code"], "id_token_front": a["id_token_front"], "token_response": "token" in obs["calls"],
-           "refresh_token": a["refresh_token"], "id_token_encrypted": obs.get("idt_encrypted"), "userinfo": "userinfo" in obs["calls"]}
+           "refresh_token": a["refresh_token"], "id_token_encrypted": obs.get("idt_encrypted"), "userinfo": "userinfo" in obs["calls"],
+           "access_token_front": a["access_token_front"], "id_token": a["id_token"], "access_token": a["access_token"]}
     d = {k: (want[k], got[k]) for k in want if want[k] != got[k]}
     return [f"cell {c['cell']}: (model, implementation) differ: {d}"] if d else []
 
@@ -337,6 +343,9 @@ def oracle(c, obs):
         ex["introspection"] = vw["introspection"]["exp"]
     if vw["rp"]["expires_in"] is not None:
         ex["token_response"] = T0 + int(vw["rp"]["expires_in"])
+    if vw["session"]["at_expires_at"] is not None:
+        # (absent counts: an RP that recorded no expiry treats the token as never expiring)
+        ex["rp_bookkeeping"] = vw["rp"].get("expires_at") or 0
     agree("expiry", ex)
     if "introspection" in vw and vw["introspection"]["active"] is not True:
         v.append({"cls": "fresh-access-token-not-active", "cell": cell})
